@@ -125,3 +125,67 @@ pub fn iter_alt<T, I: Iterator<Item = T>>(mk: &dyn Fn() -> I, show: &dyn Fn(T) -
     }
     bad
 }
+
+
+/// A BufRead that reports one transient `Interrupted` error at every new position (once at the start and once after every
+/// consume that made progress) - the way a signal may interrupt a read: a reader stacked on it and retried by its caller
+/// must deliver exactly what it delivers without.
+#[derive(Clone)]
+pub struct Flaky<R> {
+    inner: R,
+    armed: bool,
+}
+impl<R> Flaky<R> {
+    pub fn new(inner: R) -> Self {
+        Flaky { inner, armed: true }
+    }
+}
+impl<R: std::io::BufRead> std::io::Read for Flaky<R> {
+    fn read(&mut self, buf: &mut [u8]) -> std::io::Result<usize> {
+        let n = {
+            let b = std::io::BufRead::fill_buf(self)?;
+            let n = std::cmp::min(b.len(), buf.len());
+            buf[..n].copy_from_slice(&b[..n]);
+            n
+        };
+        std::io::BufRead::consume(self, n);
+        Ok(n)
+    }
+}
+impl<R: std::io::BufRead> std::io::BufRead for Flaky<R> {
+    fn fill_buf(&mut self) -> std::io::Result<&[u8]> {
+        if self.armed {
+            self.armed = false;
+            return Err(std::io::Error::new(std::io::ErrorKind::Interrupted, "transient"));
+        }
+        self.inner.fill_buf()
+    }
+    fn consume(&mut self, amt: usize) {
+        if amt > 0 {
+            self.armed = true;
+        }
+        self.inner.consume(amt)
+    }
+}
+
+/// drain a reader to its end, retrying Interrupted: (bytes, how it ended)
+pub fn drain_retrying<R: std::io::BufRead>(mut r: R) -> (Vec<u8>, String) {
+    let mut acc = Vec::new();
+    let mut guard = 0usize;
+    loop {
+        guard += 1;
+        if guard > 50_000_000 {
+            return (acc, "RUNAWAY".into());
+        }
+        match r.fill_buf() {
+            Ok(b) if b.is_empty() => return (acc, "Eof".into()),
+            Ok(b) => {
+                acc.extend_from_slice(b);
+                let n = b.len();
+                r.consume(n);
+            }
+            Err(e) if e.kind() == std::io::ErrorKind::Interrupted => continue,
+            Err(e) => return (acc, iokind(&e)),
+        }
+    }
+}
